@@ -32,6 +32,7 @@ static void Setup(World& w, int nx, int nc, const StructuredData& s1v, const Str
   w.m.Emplace(CstType::function, "[a∈ℬ(X1), b∈ℬ(X1)] D{c∈a | ∃d∈b d=c}");
   w.m.Emplace(CstType::function, "[a∈ℬ(X1)] D{b∈a×a | a=a & pr1(b)∈a}");
   w.m.Emplace(CstType::function, "[a∈ℬ(X1×X1)] D{b∈Pr1(a) | ∃c∈a pr1(c)=b}");
+  w.m.Emplace(CstType::function, "[a∈ℬ(R1)] ℬ(a)\\{a}");
   w.m.Emplace(CstType::predicate, "[a∈ℬ(X1)] a=X1");
   w.m.Emplace(CstType::axiom, "X1=X1");
   for (int i = 0; i < nx; ++i) w.m.Values().AddBasicElement(w.x1, "x" + std::to_string(i));
